@@ -566,14 +566,164 @@ theorem simE_step {fns n} (hE : SimE fns n) (hA : SimArgs fns n) (hB : SimBlock 
             · cases bvl <;> simp [pure_eq, R.ok, R.stuck] at h4
           | false => simp [pure_eq, R.ok] at h2'
         | _ => simp [R.stuck] at h2'
+  | some e1 =>
+    simp [lowerE, Option.bind_eq_some_iff] at hl
+    obtain ⟨ce, ve, c1, h1, rfl, rfl, rfl⟩ := hl
+    have ⟨m1, b1⟩ := lowerE_mono e1 c ce ve c1 h1
+    have ⟨a1, k1, hk1, hk1'⟩ := atv_spec ve c1 b1
+    have hne : atvVar ve c1 ≠ .t (atvNext ve c1) := by rw [hk1]; intro h; cases h; omega
+    constructor
+    · intro t env' w h
+      simp only [evalExpr, bind_eq, bind_ok_iff] at h
+      obtain ⟨t1, ⟨env1, a⟩, t2, hel, h2', rfl⟩ := h
+      obtain ⟨σ1, hx1, hv1, ha1, hf1⟩ := hE.mat h1 ha hel
+      cases a with
+      | int iv =>
+        simp [pure_eq, R.ok] at h2'
+        obtain ⟨rfl, rfl, rfl⟩ := h2'
+        have s1 : ExecS σ1 (.setDisc (.t (atvNext ve c1)) (.opt (some 0))) [] (.normal (σ1.set (.t (atvNext ve c1)) (.opt (some 0)))) := .setDisc
+        have s2 : ExecS (σ1.set (.t (atvNext ve c1)) (.opt (some 0))) (.assignField (.t (atvNext ve c1)) 0 (.move (atvVar ve c1))) []
+            (.normal ((σ1.set (.t (atvNext ve c1)) (.opt (some 0))).set (.t (atvNext ve c1)) (.opt (some iv)))) :=
+          .assignField (n := iv) (by simp [evalValue, set_other _ _ hne, hv1]) (by simp [setPayload])
+        refine ⟨(σ1.set (.t (atvNext ve c1)) (.opt (some 0))).set (.t (atvNext ve c1)) (.opt (some iv)), t1, [], ?_,
+          by simp [evalValue], by simp, (ha1.set_tmp _ _).set_tmp _ _,
+          (hf1.trans (Frame.set_tmp _ _ (by omega)) (Nat.le_refl _)).trans (Frame.set_tmp _ _ (by omega)) (Nat.le_refl _)⟩
+        have := ExecC.append hx1 (ExecC.cons s1 (ExecC.single s2))
+        simpa [List.append_assoc] using this
+      | _ => simp [R.stuck] at h2'
+    · intro t w h
+      simp only [evalExpr, bind_eq, bind_ret_iff] at h
+      rcases h with h | ⟨t1, ⟨env1, a⟩, t2, hel, h2', rfl⟩
+      · have := hE.ret h1 ha h
+        simpa [List.append_assoc] using ExecC.append_ret _ this
+      · cases a <;> simp [pure_eq, R.ok, R.stuck] at h2'
+  | none =>
+    simp [lowerE] at hl; obtain ⟨rfl, rfl, rfl⟩ := hl
+    constructor
+    · intro t env' w h
+      simp [evalExpr, R.ok] at h
+      obtain ⟨rfl, rfl, rfl⟩ := h
+      exact ⟨_, [], [], ExecC.single .setDisc, by simp [evalValue], rfl, ha.set_tmp _ _,
+        Frame.set_tmp _ _ (Nat.le_refl _)⟩
+    · intro t w h; simp [evalExpr, R.ok] at h
+  | accept e1 =>
+    simp [lowerE, Option.bind_eq_some_iff] at hl
+    obtain ⟨ce, ve, c1, h1, rfl, rfl, rfl⟩ := hl
+    have hvb := lowerE_valueBound e1 c ce ve c1 h1
+    constructor
+    · intro t env' w h
+      simp only [evalExpr, bind_eq, bind_ok_iff] at h
+      obtain ⟨t1, ⟨env1, a⟩, t2, hel, h2', rfl⟩ := h
+      cases a <;> simp [R.early, R.stuck] at h2'
+    · intro t w h
+      simp only [evalExpr, bind_eq, bind_ret_iff] at h
+      rcases h with h | ⟨t1, ⟨env1, a⟩, t2, hel, h2', rfl⟩
+      · exact ExecC.append_ret _ (hE.ret h1 ha h)
+      · obtain ⟨σ1, t1', t2', hx1, hv1, rfl, ha1, hf1⟩ := (hE e1 env c ce ve c1 σ h1 ha).1 t1 env1 a hel
+        cases a with
+        | int iv =>
+          simp [R.early] at h2'
+          obtain ⟨rfl, rfl⟩ := h2'
+          have s1 : ExecS σ1 (.setDisc (.t c1) (.verdict true 0)) [] (.normal (σ1.set (.t c1) (.verdict true 0))) := .setDisc
+          have s2 : ExecS (σ1.set (.t c1) (.verdict true 0)) (.assignField (.t c1) 0 ve) t2'
+              (.normal ((σ1.set (.t c1) (.verdict true 0)).set (.t c1) (.verdict true iv))) :=
+            .assignField (n := iv) (by rw [evalValue_set_fresh _ hvb (Nat.le_refl _)]; exact hv1) (by simp [setPayload])
+          have s3 : ExecS ((σ1.set (.t c1) (.verdict true 0)).set (.t c1) (.verdict true iv)) (.ret (.t c1)) []
+              (.returned (.verdict true iv)) := by
+            have := ExecS.ret (σ := (σ1.set (.t c1) (.verdict true 0)).set (.t c1) (.verdict true iv)) (x := .t c1)
+            simpa using this
+          have := ExecC.append hx1 (ExecC.cons s1 (ExecC.cons s2 (ExecC.consRet (rest := []) s3)))
+          simpa [List.append_assoc] using this
+        | _ => simp [R.stuck] at h2'
+  | reject e1 =>
+    simp [lowerE, Option.bind_eq_some_iff] at hl
+    obtain ⟨ce, ve, c1, h1, rfl, rfl, rfl⟩ := hl
+    have hvb := lowerE_valueBound e1 c ce ve c1 h1
+    constructor
+    · intro t env' w h
+      simp only [evalExpr, bind_eq, bind_ok_iff] at h
+      obtain ⟨t1, ⟨env1, a⟩, t2, hel, h2', rfl⟩ := h
+      cases a <;> simp [R.early, R.stuck] at h2'
+    · intro t w h
+      simp only [evalExpr, bind_eq, bind_ret_iff] at h
+      rcases h with h | ⟨t1, ⟨env1, a⟩, t2, hel, h2', rfl⟩
+      · exact ExecC.append_ret _ (hE.ret h1 ha h)
+      · obtain ⟨σ1, t1', t2', hx1, hv1, rfl, ha1, hf1⟩ := (hE e1 env c ce ve c1 σ h1 ha).1 t1 env1 a hel
+        cases a with
+        | int iv =>
+          simp [R.early] at h2'
+          obtain ⟨rfl, rfl⟩ := h2'
+          have s1 : ExecS σ1 (.setDisc (.t c1) (.verdict false 0)) [] (.normal (σ1.set (.t c1) (.verdict false 0))) := .setDisc
+          have s2 : ExecS (σ1.set (.t c1) (.verdict false 0)) (.assignField (.t c1) 0 ve) t2'
+              (.normal ((σ1.set (.t c1) (.verdict false 0)).set (.t c1) (.verdict false iv))) :=
+            .assignField (n := iv) (by rw [evalValue_set_fresh _ hvb (Nat.le_refl _)]; exact hv1) (by simp [setPayload])
+          have s3 : ExecS ((σ1.set (.t c1) (.verdict false 0)).set (.t c1) (.verdict false iv)) (.ret (.t c1)) []
+              (.returned (.verdict false iv)) := by
+            have := ExecS.ret (σ := (σ1.set (.t c1) (.verdict false 0)).set (.t c1) (.verdict false iv)) (x := .t c1)
+            simpa using this
+          have := ExecC.append hx1 (ExecC.cons s1 (ExecC.cons s2 (ExecC.consRet (rest := []) s3)))
+          simpa [List.append_assoc] using this
+        | _ => simp [R.stuck] at h2'
+  | «try» e1 =>
+    simp [lowerE, Option.bind_eq_some_iff] at hl
+    obtain ⟨ce, ve, c1, h1, rfl, rfl, rfl⟩ := hl
+    have ⟨m1, b1⟩ := lowerE_mono e1 c ce ve c1 h1
+    have ⟨a1, k1, hk1, hk1'⟩ := atv_spec ve c1 b1
+    have hne : atvVar ve c1 ≠ .t (atvNext ve c1) := by rw [hk1]; intro h; cases h; omega
+    constructor
+    · intro t env' w h
+      simp only [evalExpr, bind_eq, bind_ok_iff] at h
+      obtain ⟨t1, ⟨env1, a⟩, t2, hel, h2', rfl⟩ := h
+      obtain ⟨σ1, hx1, hv1, ha1, hf1⟩ := hE.mat h1 ha hel
+      cases a with
+      | opt o =>
+        cases o with
+        | some iv =>
+          simp [pure_eq, R.ok] at h2'
+          obtain ⟨rfl, rfl, rfl⟩ := h2'
+          have s1 : ExecS σ1 (.assign (.t (atvNext ve c1)) (.disc (atvVar ve c1))) [] (.normal (σ1.set (.t (atvNext ve c1)) (.int 0))) :=
+            .assign (by simp [evalValue, hv1, discOf])
+          have s2 : ExecS (σ1.set (.t (atvNext ve c1)) (.int 0))
+              (.iteD (.t (atvNext ve c1)) 0 [] [.setDisc (.t ((atvNext ve c1) + 1)) (.opt none), .ret (.t ((atvNext ve c1) + 1))]) []
+              (.normal (σ1.set (.t (atvNext ve c1)) (.int 0))) := .iteDThen (by simp) .nil
+          refine ⟨σ1.set (.t (atvNext ve c1)) (.int 0), t1, [], ?_, ?_, by simp, ha1.set_tmp _ _,
+            hf1.trans (Frame.set_tmp _ _ (by omega)) (Nat.le_refl _)⟩
+          · have := ExecC.append hx1 (ExecC.cons s1 (ExecC.single s2))
+            simpa [List.append_assoc] using this
+          · simp [evalValue, set_other _ _ hne, hv1, payload]
+        | none => simp [R.early] at h2'
+      | _ => simp [R.stuck] at h2'
+    · intro t w h
+      simp only [evalExpr, bind_eq, bind_ret_iff] at h
+      rcases h with h | ⟨t1, ⟨env1, a⟩, t2, hel, h2', rfl⟩
+      · have := hE.ret h1 ha h
+        simpa [List.append_assoc] using ExecC.append_ret _ this
+      · obtain ⟨σ1, hx1, hv1, ha1, hf1⟩ := hE.mat h1 ha hel
+        cases a with
+        | opt o =>
+          cases o with
+          | some iv => simp [pure_eq, R.ok] at h2'
+          | none =>
+            simp [R.early] at h2'
+            obtain ⟨rfl, rfl⟩ := h2'
+            have s1 : ExecS σ1 (.assign (.t (atvNext ve c1)) (.disc (atvVar ve c1))) [] (.normal (σ1.set (.t (atvNext ve c1)) (.int 1))) :=
+              .assign (by simp [evalValue, hv1, discOf])
+            have r1 : ExecS (σ1.set (.t (atvNext ve c1)) (.int 1)) (.setDisc (.t ((atvNext ve c1) + 1)) (.opt none)) []
+                (.normal ((σ1.set (.t (atvNext ve c1)) (.int 1)).set (.t ((atvNext ve c1) + 1)) (.opt none))) := .setDisc
+            have r2 : ExecS ((σ1.set (.t (atvNext ve c1)) (.int 1)).set (.t ((atvNext ve c1) + 1)) (.opt none)) (.ret (.t ((atvNext ve c1) + 1))) []
+                (.returned (.opt none)) := by
+              have := ExecS.ret (σ := (σ1.set (.t (atvNext ve c1)) (.int 1)).set (.t ((atvNext ve c1) + 1)) (.opt none)) (x := .t ((atvNext ve c1) + 1))
+              simpa using this
+            have s2 : ExecS (σ1.set (.t (atvNext ve c1)) (.int 1))
+                (.iteD (.t (atvNext ve c1)) 0 [] [.setDisc (.t ((atvNext ve c1) + 1)) (.opt none), .ret (.t ((atvNext ve c1) + 1))]) []
+                (.returned (.opt none)) :=
+              .iteDElse (d := 1) (by simp) (by omega) (ExecC.cons r1 (ExecC.consRet (rest := []) r2))
+            have := ExecC.append hx1 (ExecC.cons s1 (ExecC.consRet (rest := []) s2))
+            simpa [List.append_assoc] using this
+        | _ => simp [R.stuck] at h2'
   | call f args => simp [lowerE] at hl
   | mtch s arms => simp [lowerE] at hl
   | «for» x l b => simp [lowerE] at hl
-  | accept e1 => simp [lowerE] at hl
-  | reject e1 => simp [lowerE] at hl
-  | «try» e1 => simp [lowerE] at hl
-  | some e1 => simp [lowerE] at hl
-  | none => simp [lowerE] at hl
   | ctor k args => simp [lowerE] at hl
   | record fs => simp [lowerE] at hl
   | field e1 i => simp [lowerE] at hl
@@ -821,6 +971,13 @@ theorem ExecS.det : ∀ {σ : Store} {s : Stm} {t t' : Trace} {o o' : Outcome},
     obtain ⟨rfl, h⟩ := ExecC.det hc hc'; cases h
     obtain ⟨rfl, h⟩ := ExecC.det hb hb'; cases h
     obtain ⟨rfl, h⟩ := ExecS.det hr hr'; cases h; exact ⟨rfl, rfl⟩
+  | _, _, _, _, _, _, .setDisc, .setDisc => ⟨rfl, rfl⟩
+  | _, _, _, _, _, _, .assignField h p, .assignField h' p' => by
+    rw [h] at h'; cases h'; rw [p] at p'; cases p'; exact ⟨rfl, rfl⟩
+  | _, _, _, _, _, _, .iteDThen _ h, .iteDThen _ h' => ExecC.det h h'
+  | _, _, _, _, _, _, .iteDElse _ _ h, .iteDElse _ _ h' => ExecC.det h h'
+  | _, _, _, _, _, _, .iteDThen e _, .iteDElse e' ne _ => by rw [e] at e'; cases e'; exact (ne rfl).elim
+  | _, _, _, _, _, _, .iteDElse e ne _, .iteDThen e' _ => by rw [e] at e'; cases e'; exact (ne rfl).elim
 theorem ExecC.det : ∀ {σ : Store} {c : Code} {t t' : Trace} {o o' : Outcome},
     ExecC σ c t o → ExecC σ c t' o' → t = t' ∧ o = o'
   | _, _, _, _, _, _, .nil, .nil => ⟨rfl, rfl⟩
